@@ -117,6 +117,9 @@ def concrete(family, kind):
         gaps = offcycle
         negative = neg_month
     ok = [("ok", lambda: base(), True, std)]
+    if H:
+        # the largest seed the settings accept (the clustering derives further seeds from it)
+        ok.append(("largest_accepted_seed", lambda: base(), True, dict(std or {}, seed=2**32 - 1)))
     if not H:
         # well-formed baselines whose temperature column is not float64: whole degrees stored as integers, float32
         def as_dtype(fr, dt):
